@@ -168,12 +168,14 @@ func loadKnown(path string) ([]knownFinding, error) {
 		}
 		head, text, _ := strings.Cut(l, " -- ")
 		k.text = strings.TrimSpace(text)
+		// key= extends to the end of the head (obligation keys may contain spaces)
+		if i := strings.Index(head, "key="); i >= 0 {
+			k.key = strings.TrimSpace(head[i+len("key="):])
+			head = head[:i]
+		}
 		for _, f := range strings.Fields(head) {
 			if v, ok := strings.CutPrefix(f, "property="); ok {
 				k.prop = v
-			}
-			if v, ok := strings.CutPrefix(f, "key="); ok {
-				k.key = v
 			}
 		}
 		if k.prop == "" || (k.kind == "finding" && k.key == "") {
